@@ -1559,6 +1559,11 @@ def simp_cond_logic_ext(expr_s, expr):
     if len(sizes) != 1:
         return expr
     size = list(sizes)[0]
+    if cond.op != "&" and any(
+            arg.is_int() and int(arg) >= (1 << size) for arg in cond.args
+    ):
+        # Only '&' absorbs the constant's bits above the extended operands
+        return expr
     args = [expr_s(arg[:size]) for arg in cond.args]
     cond = ExprOp(cond.op, *args)
     return ExprCond(cond, expr.src1, expr.src2)
